@@ -58,6 +58,14 @@ CHECKS["C12"] = dict(
     ref="2/C12",
 )
 
+CHECKS["C02"] = dict(
+    technique="output monitor: every artefact of every emit API is handed to the JS engine's parser in sloppy and strict mode",
+    text="All artefacts (per-template generator object, all-templates bundle, MiniProgram bundle, runtime prelude, global export, script export) of generated templates, of randomly damaged templates (diagnostics of every level), of size ladders that drive the three identifier counters past the short reserved words (quick: 3,000 declarations; thorough: 210,000), of hostile paths / module names / scope names / field names / static strings, and of the literal grammar must parse with V8 in both modes. The identifier tap reports reserved-word candidates at generation time (localisation only; the verdict is the parse).",
+    note="Trusted: V8's parser as the definition of syntactic validity. Cases whose inline or external script bodies are themselves invalid are outside the property and counted.",
+    ref="2/C02",
+    engine="gev",
+)
+
 NOT_YET = {}
 
 
